@@ -7,6 +7,7 @@ from sympy.physics.units import Dimension
 from sympy.physics.units.definitions.dimension_definitions import angle as angle_type
 
 from ..dimensions import assert_equivalent_dimension, dimensionless
+from ..dimensions.miscellaneous import is_any_dimension
 from ..symbols.quantities import Quantity, subs_list
 from ..symbols.id_generator import next_id
 from ..symbols.symbols import DimensionSymbol
@@ -122,11 +123,14 @@ class QuantityVector(DimensionSymbol):
         quantities = [
             c if isinstance(c, Quantity) else Quantity(c, dimension=dimension) for c in components
         ]
-        # find first dimension with non-zero scale factor
+        # find first dimension with non-zero scale factor. Zero (also a floating point one), infinite
+        # and NaN components are compatible with any dimension, angle components have their own.
         if dimension is None:
             dimension = dimensionless
-            for q in quantities:
-                if q.scale_factor != 0:
+            for idx, q in enumerate(quantities):
+                if CoordinateSystem.is_angle_component(coordinate_system.coord_system_type, idx):
+                    continue
+                if not is_any_dimension(q.scale_factor):
                     dimension = q.dimension
                     break
         scale_factors = []
